@@ -244,3 +244,188 @@ def c08_3(I, shape):
         I.check(out["kind"] == "alert", "otherwise-a-fatal-alert")
         I.check(len(sent) >= 2 and sent[-1][0] == ContentType.alert,
                 "alert-on-the-wire")
+
+
+# ---------------------------------------------------------------------------
+# C08.5  X.509 / ASN.1: a window of a real certificate is arbitrary
+# ---------------------------------------------------------------------------
+import os as _os
+
+import tlslite.x509 as x509mod
+import tlslite.utils.asn1parser as asn1mod
+import tlslite.utils.codec as codecmod
+import tlslite.constants as constsmod
+from tlslite.utils.pem import dePem
+from symx.core import mk_bytearray, sym_from_bytes, sym_range
+from models.conn import _bytes_passthrough
+
+_TESTS = _os.path.join(_os.environ.get("VERIF_REPO", "/repo"), "tests")
+CERTS = {"rsa": "serverX509Cert.pem", "ecdsa": "serverECCert.pem",
+         "dsa": "serverDSACert.pem", "rsapss": "serverRSAPSSCert.pem",
+         "ed25519": "serverEd25519Cert.pem"}
+
+
+def _der(name):
+    with open(_os.path.join(_TESTS, CERTS[name])) as f:
+        return bytearray(dePem(f.read(), "CERTIFICATE"))
+
+
+class BytesKeyDict(dict):
+    """dict with bytes keys whose lookups accept symbolic byte strings: one
+    path per key that can match, one for 'none matches'"""
+
+    def _resolve(self, key):
+        if not isinstance(key, SymBytes) or key.is_concrete():
+            k = bytes(bytearray(int(x) for x in key)) \
+                if isinstance(key, SymBytes) else key
+            return k, dict.__contains__(self, k)
+        for k in sorted(dict.keys(self)):
+            if len(k) == len(key) and bool(seq_eq(list(key), list(k))):
+                return k, True
+        return None, False
+
+    def __contains__(self, key):
+        return self._resolve(key)[1]
+
+    def __getitem__(self, key):
+        k, ok = self._resolve(key)
+        if not ok:
+            raise KeyError(key)
+        return dict.__getitem__(self, k)
+
+
+class KeyLib(object):
+    """boundary to the key libraries (python-ecdsa, dilithium, the RSA/DSA
+    key classes): a call either returns an opaque key or fails the way the
+    caller anticipates"""
+
+    def __init__(self, I):
+        self.I = I
+        self.calls = []
+
+    def make(self, name):
+        def f(*a, **k):
+            self.calls.append(name)
+            return (name,) + tuple(a)
+        return f
+
+    def from_der(self, *a, **k):
+        self.calls.append("from_der")
+        if self.I.pick([False, True], "keylib_rejects"):
+            raise ValueError("malformed key (library)")
+
+        class _P(object):
+            def x(self):
+                return 1
+
+            def y(self):
+                return 2
+
+        class _K(object):
+            class pubkey(object):
+                point = _P()
+
+            class curve(object):
+                name = "NIST256p"
+        return _K()
+
+
+KEYLIB = [None]
+
+
+class _VK(object):
+    @staticmethod
+    def from_der(*a, **k):
+        return KEYLIB[0].from_der(*a, **k)
+
+
+def _x509_patches(shape):
+    mk = lambda n: (lambda *a, **k: KEYLIB[0].make(n)(*a, **k))
+    prox = [(x509mod, "bytearray", mk_bytearray),
+            (x509mod, "bytes", _bytes_passthrough),
+            (x509mod, "compatHMAC", lambda x: x),
+            (asn1mod, "range", sym_range),
+            (codecmod, "bytearray", mk_bytearray),
+            (codecmod, "bytes_to_int", sym_from_bytes),
+            (x509mod, "bytesToNumber", sym_from_bytes),
+            (constsmod.AlgorithmOID, "oid",
+             BytesKeyDict(constsmod.AlgorithmOID.oid))]
+    stubs = [(x509mod, "VerifyingKey", _VK),
+             (x509mod, "_createPublicRSAKey", mk("rsa")),
+             (x509mod, "_create_public_ecdsa_key", mk("ecdsa")),
+             (x509mod, "_create_public_dsa_key", mk("dsa")),
+             (x509mod, "_create_public_eddsa_key", mk("eddsa")),
+             (x509mod, "_create_public_mldsa_key", mk("mldsa"))]
+    return (prox, stubs)
+
+
+def _shapes_c08_5(tier):
+    out = []
+    W = 2
+    for name in sorted(CERTS):
+        try:
+            n = len(_der(name))
+        except (IOError, OSError):
+            continue
+        stride = 16 if tier == "quick" else W
+        for o in range(0, n, stride):
+            out.append(dict(cert=name, off=o, w=min(W, n - o)))
+    return out
+
+
+@obligation("C08.5", _shapes_c08_5,
+            functions=["tlslite.x509:X509.parseBinary",
+                       "tlslite.x509:get_algorithm",
+                       "tlslite.x509:_rsa_pubkey_parsing",
+                       "tlslite.x509:_dsa_pubkey_parsing",
+                       "tlslite.x509:_ecdsa_pubkey_parsing",
+                       "tlslite.x509:_eddsa_pubkey_parsing",
+                       "tlslite.utils.asn1parser:ASN1Parser.__init__",
+                       "tlslite.utils.asn1parser:ASN1Parser.getChild",
+                       "tlslite.utils.asn1parser:ASN1Parser.getChildBytes",
+                       "tlslite.utils.asn1parser:ASN1Parser.getChildCount",
+                       "tlslite.utils.asn1parser:ASN1Parser._getASN1Length",
+                       "tlslite.utils.asn1parser:ASN1Parser._parse_type"],
+            assumes=["input: a real certificate from tests/ (RSA, RSA-PSS, "
+                     "ECDSA, DSA, Ed25519) in which a window of 2 "
+                     "consecutive bytes is symbolic (quick: every 16th "
+                     "offset, thorough: every window)",
+                     "key-object construction (Python_RSAKey, DSA key, "
+                     "python-ecdsa VerifyingKey.from_der, EdDSA/ML-DSA "
+                     "wrappers) is the boundary: constructors return an "
+                     "opaque value, from_der either returns or raises - "
+                     "the integers handed to the RSA/DSA constructors are "
+                     "checked to be non-zero where the constructor asserts "
+                     "it",
+                     "allowed outcomes: a certificate object or the "
+                     "SyntaxError family (what _getMsg turns into "
+                     "decode_error); AlgorithmOID.oid lookups fork over the "
+                     "registered OIDs"],
+            patches=_x509_patches, max_paths=6000, timeout=(600, 1800))
+def c08_5(I, shape):
+    """X509.parseBinary on a certificate with arbitrary bytes in a window
+    ends in a certificate or in SyntaxError - never in KeyError, IndexError,
+    AssertionError, TypeError or another raw exception"""
+    KEYLIB[0] = KeyLib(I)
+    der = list(_der(shape["cert"]))
+    o, w = shape["off"], shape["w"]
+    sym = I.bytes(w, "window")
+    buf = newbuf(der[:o] + list(sym) + der[o + w:])
+    cert = x509mod.X509()
+    try:
+        cert.parseBinary(buf)
+    except SyntaxError:
+        I.cover("rejected")
+        return
+    except (PathAbort, Unsupported):
+        raise
+    except Exception as e:
+        I.fail("X509.parseBinary raised %s" % type(e).__name__,
+               detail=repr(e)[:200])
+        return
+    I.cover("parsed")
+    pk = getattr(cert, "publicKey", None)
+    if isinstance(pk, tuple) and pk[0] == "rsa":
+        # Python_RSAKey asserts (n and e) or (not n and not e)
+        I.check(AND(pk[1] != 0, pk[2] != 0),
+                "rsa-key-constructed-only-from-non-zero-n-and-e")
